@@ -7,7 +7,8 @@ a consequence of the builder checks: the first half is true of every Python dict
 finding `C08_rename_twice_necessary`.)
 -/
 namespace DAVerif
-open Rules26 Sql
+namespace Sql
+open Rules26
 
 set_option linter.unusedSimpArgs false
 
@@ -247,6 +248,9 @@ theorem build_sqlwf {p : Ops} (hs : SqlWF p) {s : Step} (hb : ∀ b ∈ stepArgs
       simp only [build, convertB_eq, mkConvert, ok?_bind_ok, pure_ok, nodupB_iff] at h
       obtain ⟨_, _, _, rfl⟩ := h
       exact (SqlWF.stripped hs)
+
+end Sql
+open Sql
 
 /-- **Every pipeline obtained from table descriptions by builder calls satisfies `SqlWF`.** -/
 theorem C01_reachable_sqlwf {p : Ops} (h : Reachable p) : SqlWF p := by
